@@ -41,6 +41,10 @@ func initKF() {
 	if kf.Activate("KF-C01-attrgroup-redefinition", changed) {
 		genOff["noise-split-attrgroups"] = true
 	}
+	kf.Activate("KF-C01-nonstruct-named-type-order", func(in string) bool {
+		o := orc.ParsePrintPreserves(in, orc.Opts{OwnGenerator: true})
+		return o.V == orc.Violation && o.Class == "output_rejected_by_llvm" && strings.Contains(o.Msg, "forward references to non-struct type")
+	})
 	kfCC1 = kf.Activate("KF-C01-cc1", func(in string) bool {
 		o := orc.ParsePrintPreserves(in, orc.Opts{})
 		return o.V == orc.Violation && o.Class == "meaning_changed"
